@@ -512,6 +512,9 @@ fn worker_body(p: &Property, a: &WorkerArgs) -> J {
             cases,
             failure_persistence: None,
             max_shrink_iters: 20_000,
+            // minimisation of a slow failing case (C01's scaling ladders) is cut off after two minutes:
+            // this bounds only how small the replay gets, never the verdict
+            max_shrink_time: 120_000,
             max_global_rejects: 0,
             verbose: 0,
             ..Config::default()
